@@ -48,6 +48,10 @@ def run(tier):
     # the compiler's --strict option: a value that does not fit removes the zone (with a reason) instead of truncating it
     big.append(["unsupported", "--strict", "--targets", "python", "--grid", 30, "--pygrid", 86400])
     big.append(["features", "--strict", "--targets", "python", "--grid", 30, "--pygrid", 86400])
+    # ... and its granularity options (--until_at_granularity / --offset_granularity 900 in both scopes): more values are cut,
+    # each cut must be noted (or, with --strict, the zone / policy removed)
+    big.append(["features", "--granularity", 900, "--targets", "python", "--grid", 30, "--pygrid", 86400])
+    big.append(["unsupported", "--granularity", 900, "--strict", "--targets", "python", "--grid", 30, "--pygrid", 86400])
     if not q:
         big.append(["tz2025b", "--strict", "--targets", "python", "--grid", 60, "--pygrid", 86400 * 3 + 3600 * 5])
         big.append(["tz2025b-raw", "--grid", 5])
